@@ -84,7 +84,14 @@ func c17SP(variant int) h.SPConfig {
 	sp := h.BaseSP()
 	sp.Store = []h.CertRef{{Key: "T1", Window: "wide"}, {Key: "T2", Window: "wide"}}
 	sp.SignRequests = true
-	switch variant % 4 {
+	switch variant % 6 {
+	case 4: // encryption certificate outside its window, validation of it switched on, generic key store
+		sp.Enc = h.KeyCfg{Mode: "custom", Field: h.CertRef{Key: "E1", Window: "past"}}
+		sp.ValidateEncCert = true
+	case 5:
+		sp.Enc = h.KeyCfg{Mode: "tls", Field: h.CertRef{Key: "E1", Window: "future"}}
+		sp.ValidateEncCert = true
+		sp.Skip = true
 	case 0:
 		sp.Enc = h.KeyCfg{Mode: "tls", Field: h.CertRef{Key: "E1", Window: "wide"}}
 	case 1:
@@ -400,7 +407,7 @@ func genC17Ops(t *rapid.T, n int) []C17Op {
 // ---- Part A: sequential isolation / purity ----------------------------------------------------
 
 func genC17Seq(t *rapid.T) C17Case {
-	return C17Case{SP: c17SP(rapid.IntRange(0, 3).Draw(t, "spVariant")), Seq: true, Ops: [][]C17Op{genC17Ops(t, rapid.IntRange(1, 12).Draw(t, "nOps"))}}
+	return C17Case{SP: c17SP(rapid.IntRange(0, 5).Draw(t, "spVariant")), Seq: true, Ops: [][]C17Op{genC17Ops(t, rapid.IntRange(1, 12).Draw(t, "nOps"))}}
 }
 
 func checkC17Seq(c C17Case) h.Outcome {
@@ -443,7 +450,7 @@ func checkC17Seq(c C17Case) h.Outcome {
 // ---- Part B: concurrent use of a FRESH SP (first-use race on the lazy signing context), under -race ----
 
 func genC17Conc(t *rapid.T) C17Case {
-	c := C17Case{SP: c17SP(rapid.IntRange(0, 3).Draw(t, "spVariant"))}
+	c := C17Case{SP: c17SP(rapid.IntRange(0, 5).Draw(t, "spVariant"))}
 	g := rapid.IntRange(2, 16).Draw(t, "goroutines")
 	for i := 0; i < g; i++ {
 		c.Ops = append(c.Ops, genC17Ops(t, rapid.IntRange(1, 4).Draw(t, "nOps")))
